@@ -15,7 +15,7 @@ for name in $NAMES; do
   DEMO=$(ls $D/demo*.py 2>/dev/null | head -1)
   if [[ "$DEMO" == *_test.py || "$DEMO" == *test_*.py ]]; then RUN="-m pytest -q -p no:cacheprovider"; else RUN=""; fi
   (cd /tmp && timeout 900 /venv/bin/python $RUN /verif/$DEMO >/dev/null 2>&1); d0=$?
-  if ! git -C /repo apply $D/patch.diff; then echo -e "$name\t$HEAD\tPATCH-DOES-NOT-APPLY" >> $OUT; continue; fi
+  if ! git -C /repo apply /verif/$D/patch.diff; then echo -e "$name\t$HEAD\tPATCH-DOES-NOT-APPLY" >> $OUT; continue; fi
   (cd /tmp && timeout 900 /venv/bin/python $RUN /verif/$DEMO >/dev/null 2>&1); d1=$?
   IDS=$(/venv/bin/python -c "import json;print(' '.join(json.load(open('$D/meta.json'))['verification']['caught_by']))")
   for id in $IDS; do
